@@ -250,9 +250,15 @@ def check_config(ctx, T, cfg, tier, seed):
                     ctx.violation(k, dict(case, key=k, censor=c, point=H.fl(yin[i])),
                                   "backward_censored(y=%r, censor=%r) = %r is not >= censor" % (
                                       float(yin[i]), c, float(xc[i])), observed=H.fl(xc[i]))
-                margin = TOL * np.maximum(np.maximum(np.abs(xrin), abs(c)), xflo)
-                above = xrin > c + margin
-                under = xrin < c - margin
+                # which side of the censor a point is on is decided by the implementation's own backward
+                # (not by the textbook reference: near a branch switch - e.g. |lam-2| <= 2e-5 where the
+                # implementation uses the limiting log form - the two differ by more than the margin in x space
+                # although forward and backward stay consistent with each other)
+                xside = res["back"] if ("back" in res and res["back"] is not None and np.shape(res["back"]) == np.shape(xrin)) else xrin
+                xside = np.where(np.isfinite(xside), xside, xrin)
+                margin = TOL * np.maximum(np.maximum(np.abs(xside), abs(c)), xflo)
+                above = xside > c + margin
+                under = xside < c - margin
                 ctx.count("censored.above", int(above.sum()))
                 ctx.count("censored.below", int(under.sum()))
                 if "back" in res:
